@@ -688,13 +688,17 @@ def run(ctx: vlib.Ctx):
                                          "C05_x_union_rejects_partial", "C05_lit_ok", "C05_lit_exn",
                                          "C05_x_list_exn", "C05_x_list_ok", "C05_x_list_union_rejects_partial",
                                          "C05_x_dict_not_mapping"])
+    # (T) kernel K19 (the emission loop of UnionUnpackerBuilder._add_body, C11's translation): the emitted union method,
+    # run with exception classes, is Errs.union_run / the union position of ErrsX
+    ctx.theorems("props/C05_emit.vo", ["C05_union_emitted", "C05_union_emitted_exceptions",
+                                       "C05_union_emitted_rejects_partial", "C05_x_union_emitted"], kernels=["K19"])
     # (T) kernel K16: emitted handler classes + exceptions.py hierarchy, re-translated from /repo on every run
     ctx.theorems("props/C05_handlers.vo", ["C05_k16_handlers_as_modelled", "C05_k16_documented_pass_through",
                                            "C05_k16_model_patterns"], kernels=["K16"])
     if not ctx.quick():
         # second opinion: the independent checker re-validates the compiled property files and their cone
         rc, log, secs = vlib.run(["timeout", "1500", "coqchk", "-silent", "-o", "-Q", "theories", "Verif", "-Q", "gen", "VerifGen",
-                                  "-Q", "props", "VerifProps", "VerifProps.C05_errors", "VerifProps.C05_typed", "VerifProps.C05_xtyped", "VerifProps.C05_handlers"],
+                                  "-Q", "props", "VerifProps", "VerifProps.C05_errors", "VerifProps.C05_typed", "VerifProps.C05_xtyped", "VerifProps.C05_emit", "VerifProps.C05_handlers"],
                                  cwd=vlib.COQ, timeout=1530)
         ok = rc == 0 and "Axioms: <none>" in log
         ctx.obligation("coqchk VerifProps.C05_errors C05_typed C05_handlers (Axioms: <none>)", ok, log[-400:])
